@@ -170,6 +170,10 @@ class _FuncInline(SiteRewriter):
         self.recursive = recursive
 
         self.gensym = Gensym(self.def_use.names())
+        # a callee's local keeps its name unless the name is taken, and a name
+        # that another spliced body reads as a free variable is taken too
+        for fdef in CallGraph.analyze(func).nodes:
+            self.gensym.reserve(*fdef.free_vars)
         self.free_vars = set(func.free_vars)
         # every name the caller binds itself, as opposed to captures
         self.local_names = {
